@@ -209,8 +209,18 @@ impl<'a> Stepper<'a> {
     fn step_q(&mut self, q: &str, plain: bool) {
         self.history.push(q.to_string());
         // subject: the public helper, on the long-lived context
+        let t0 = chrono::Local::now();
         let got = rink_core::eval(self.l, q);
+        let t1 = chrono::Local::now();
         let got_ser = ser(&got).to_string();
+        // the clock is not state either: every query is answered at the time it is asked, as a
+        // fresh context would (the helper reads the clock before evaluating)
+        if self.l.now < t0 || self.l.now > t1 {
+            self.bad.push((
+                "the context's clock is not the time of the query".into(),
+                format!("after [{}]: the context says {} for a query asked between {} and {}", self.hist_text(), self.l.now, t0, t1),
+            ));
+        }
         // reference: a context that has never answered a query - a forked copy of the loaded
         // database - with only the previous answer, the flag and the clock preset.  Nothing the
         // evaluation does to that copy can reach a later step.
@@ -303,7 +313,7 @@ impl Space for C15 {
         Meta {
             id: "C15",
             level: "model_checking",
-            rule: format!("explicit-state exploration over a 16-query alphabet (one per reply kind and per way of touching ans: numbers, ans/_/ANS uses, an error, conversions, a definition lookup, units for, search, a time-valued result, a substance, a date, a unit list, an inline definition and a use of its name) with the feature flag on and off: every history up to depth {} is replayed through rink_core::eval on a real Context that has answered nothing before (each history runs in a forked copy of the worker process, on its copy of a database that the worker loaded and never queried), and one long-lived Context is fed a de Bruijn sequence B(16,{}) (every length-{} window from a different non-initial state). Plus every history of depth {} over 6 queries and the two settings changes <flag on>/<flag off> made between queries on one context (initially off). Plus `2 m ; X ; ans` for 34 spellings X of conversions and commands (every base/digits/notation modifier, `to`/`in`, unit lists, date and temperature conversions, units for / factorize / search / definition lookups). Plus all depth-3 histories over 5 date literals and a number on a context that has user date patterns with overlapping readings loaded (reference: never-queried copies of a context with the same patterns). Model = one register (ans) and the flag. At every transition: serialised reply == reply of a context that has never answered a query (a forked copy of the loaded database, discarded after the one reply, so that no state hidden behind `&Context` can reach a later step) with previous_result := register; ans == register; registry sizes/settings unchanged; full Debug dump of the registry compared at the end of histories. state = (register value, dimensionality, flag)", self.depth, self.db_order, self.db_order, self.tog_depth()),
+            rule: format!("explicit-state exploration over a 16-query alphabet (one per reply kind and per way of touching ans: numbers, ans/_/ANS uses, an error, conversions, a definition lookup, units for, search, a time-valued result, a substance, a date, a unit list, an inline definition and a use of its name) with the feature flag on and off: every history up to depth {} is replayed through rink_core::eval on a real Context that has answered nothing before (each history runs in a forked copy of the worker process, on its copy of a database that the worker loaded and never queried), and one long-lived Context is fed a de Bruijn sequence B(16,{}) (every length-{} window from a different non-initial state). Plus every history of depth {} over 6 queries and the two settings changes <flag on>/<flag off> made between queries on one context (initially off). Plus `2 m ; X ; ans` for 34 spellings X of conversions and commands (every base/digits/notation modifier, `to`/`in`, unit lists, date and temperature conversions, units for / factorize / search / definition lookups). Plus all depth-3 histories over 5 date literals and a number on a context that has user date patterns with overlapping readings loaded (reference: never-queried copies of a context with the same patterns). Model = one register (ans) and the flag. At every transition: serialised reply == reply of a context that has never answered a query (a forked copy of the loaded database, discarded after the one reply, so that no state hidden behind `&Context` can reach a later step) with previous_result := register; ans == register; the context's clock lies between the start and the end of the call (each query is answered at the time it is asked); registry sizes/settings unchanged; full Debug dump of the registry compared at the end of histories. state = (register value, dimensionality, flag)", self.depth, self.db_order, self.db_order, self.tog_depth()),
             assumptions: vec![
                 "the model register is updated from the never-queried context's reply, so the reference is exactly the statement's 'fresh context with the same previous answer'; the register crosses the process boundary as exact numerator/denominator text (or float bits) plus unit powers".into(),
                 "a forked copy of a loaded Context behaves like a newly loaded one: loading is deterministic (C12) and the copy shares no memory with later steps".into(),
